@@ -16,7 +16,7 @@ func isIntrinsic(name string) bool {
 		return true
 	}
 	switch name {
-	case "vAssume", "vAssert", "vReach", "vB2I", "vHash", "vCrash", "vCatchCrash", "vParam", "vChoose", "vRegion", "vNote", "vIsSym", "vHang", "vNative", "vHeld", "vSyncMapPut":
+	case "vAssume", "vAssert", "vReach", "vB2I", "vHash", "vCrash", "vCatchCrash", "vParam", "vChoose", "vRegion", "vNote", "vIsSym", "vHang", "vNative", "vHeld", "vSyncMapPut", "vMapPad":
 		return true
 	}
 	return false
@@ -112,6 +112,16 @@ func callIntrinsic(fr *frame, fn *ssa.Function, args []value) value {
 		return false
 	case "vHeld":
 		return heldCount()
+	case "vMapPad":
+		// the map holds, besides its explicit entries, n further entries under keys the code never names
+		m, ok := args[0].(iface).v.(map[value]value)
+		if !ok {
+			panic("vMapPad: not a builtin map")
+		}
+		t, _ := termOf(args[1])
+		mapKeep = append(mapKeep, m)
+		mapPad[mapID(m)] = t
+		return nil
 	case "vSyncMapPut":
 		// interference: another thread stored (k, v) into the sync.Map unless the key is present
 		m := args[0].(*value)
